@@ -55,7 +55,7 @@ def work(item):
         out['error'] = type(e).__name__
         return out
     try:
-        out['nw'] = nwchem_cases(b, rng) + nwchem_ecp_cases(b, rng) + g94_cases(b, rng) + g94_ecp_cases(b, rng) + tm_cases(b, rng)
+        out['nw'] = nwchem_cases(b, rng) + nwchem_ecp_cases(b, rng) + g94_cases(b, rng) + g94_ecp_cases(b, rng) + tm_cases(b, rng) + tm_ecp_cases(b, rng)
     except Exception as e:
         out['nw'] = [('harness-error', None, '%s: %s' % (type(e).__name__, e))]
     fmts = sorted(set(writers.get_writer_formats()) & set(readers.get_reader_formats()))
@@ -663,6 +663,132 @@ def tm_cases(b, rng):
         cases.append(('tm-read:' + kind, dict(op='tm_read', lines=[tm_tok(l) for l in mp]), tm_real_read(m)))
     return cases
 
+def tmp_tok(line):
+    """a line of the pruned $ecp section, classified by the reader's own tests"""
+    from basis_set_exchange.readers import turbomole as rt
+    if line == '*':
+        return dict(k='star')
+    if line.startswith('*'):
+        return dict(k='starish')
+    m = rt.element_re.match(line)
+    if m:
+        return dict(k='elem', sym=m.group(1), rest=m.group(2))
+    m = rt.ecp_info_re.match(line)
+    if m:
+        return dict(k='info', ncore=m.group(1), lmax=m.group(2))
+    m = rt.ecp_pot_am_re.match(line)
+    if m:
+        return dict(k='title', am=m.group(1), base=(m.group(2)[1:] if m.group(2) else None))
+    if line[:1].isalpha():
+        return dict(k='alpha')
+    return dict(k='row', t=line.split())
+
+
+def tmp_real_read(sec):
+    from basis_set_exchange.readers import turbomole as rt
+    bs = {}
+    try:
+        rt._parse_ecp_lines(list(sec), bs)
+    except Exception as e:
+        return ('err', type(e).__name__)
+    return ('ok', [[int(z), el['ecp_electrons'], [dict(am=p['angular_momentum'], rexp=p['r_exponents'], gexp=p['gaussian_exponents'], coef=p['coefficients'][0])
+                                                   for p in el['ecp_potentials']]] for z, el in bs.items()])
+
+
+def tmp_mutations(sec, rng):
+    from basis_set_exchange.readers import turbomole as rt
+    out = []
+    n = len(sec)
+    for kind in ('drop_line', 'swap', 'no_last_star', 'extra_star', 'starish', 'lmax_wrong', 'ncore_text', 'two_tops', 'base_wrong', 'bad_letter', 'upper_title',
+                 'two_tokens', 'four_tokens', 'float_r', 'garbage_token', 'dup_element', 'bad_sym', 'title_without_rows', 'info_missing', 'info_upper', 'alpha_line'):
+        m = list(sec)
+        try:
+            elems = [i for i, l in enumerate(m) if rt.element_re.match(l) and not l.startswith('$')]
+            infos = [i for i, l in enumerate(m) if rt.ecp_info_re.match(l)]
+            titles = [i for i, l in enumerate(m) if rt.ecp_pot_am_re.match(l)]
+            rows = [i for i, l in enumerate(m) if i not in elems + infos + titles and not l.startswith(('*', '$'))]
+            if kind == 'drop_line':
+                del m[rng.randrange(1, n)]
+            elif kind == 'swap':
+                i, j = rng.randrange(1, n), rng.randrange(1, n); m[i], m[j] = m[j], m[i]
+            elif kind == 'no_last_star':
+                k = max(i for i, l in enumerate(m) if l == '*'); del m[k]
+            elif kind == 'extra_star':
+                m.insert(rng.choice(rows), '*')
+            elif kind == 'starish':
+                m.insert(rng.choice(rows), '** note')
+            elif kind == 'lmax_wrong':
+                i = rng.choice(infos); mm = rt.ecp_info_re.match(m[i]); m[i] = 'ncore = %s   lmax = %d' % (mm.group(1), int(mm.group(2)) + rng.choice([-1, 1, 2]))
+            elif kind == 'ncore_text':
+                i = rng.choice(infos); m[i] = m[i].replace('ncore', rng.choice(['ncor', 'n core', 'NCORE']))
+            elif kind == 'two_tops':
+                i = rng.choice([t for t in titles if '-' in m[t]]); m[i] = m[i].split('-')[1]
+            elif kind == 'base_wrong':
+                i = rng.choice([t for t in titles if '-' in m[t]]); m[i] = m[i].split('-')[0] + '-' + rng.choice(['s', 'p', 'i', 'q'])
+            elif kind == 'bad_letter':
+                i = rng.choice(titles); m[i] = rng.choice(['q', 'j', 'x']) + m[i][1:]
+            elif kind == 'upper_title':
+                i = rng.choice(titles); m[i] = m[i].upper()
+            elif kind == 'two_tokens':
+                i = rng.choice(rows); m[i] = ' '.join(m[i].split()[:2])
+            elif kind == 'four_tokens':
+                i = rng.choice(rows); m[i] = m[i] + ' 1.0'
+            elif kind == 'float_r':
+                i = rng.choice(rows); t = m[i].split(); t[1] = rng.choice(['2.0', '-1', 'x', '+2']); m[i] = ' '.join(t)
+            elif kind == 'garbage_token':
+                i = rng.choice(rows); t = m[i].split(); t[rng.choice([0, 2])] = rng.choice(['abc', '1.0.0', '12', '1e5', '.', '-.5D-3']); m[i] = ' '.join(t)
+            elif kind == 'dup_element':
+                i = elems[0]
+                c = next(k for k in range(i + 2, len(m)) if m[k] == '*')
+                m = m[:-1] + m[i:c + 1] + m[-1:] if m[-1].startswith('$') else m + m[i:c + 1]
+            elif kind == 'bad_sym':
+                i = rng.choice(elems); t = m[i].split(None, 1); t[0] = rng.choice(['xx', 'qq', 'zzz']); m[i] = ' '.join(t)
+            elif kind == 'title_without_rows':
+                i = rng.choice(titles); m.insert(i, m[i])
+            elif kind == 'info_missing':
+                del m[rng.choice(infos)]
+            elif kind == 'info_upper':
+                i = rng.choice(infos); m[i] = m[i].upper()
+            elif kind == 'alpha_line':
+                m.insert(rng.choice(rows), rng.choice(['note here', 'ss-f', 's-', 'sf']))
+        except (IndexError, ValueError, StopIteration):
+            continue
+        m = [l for l in m if l.strip()]
+        if m:
+            out.append((kind, m))
+    return out
+
+
+def tm_ecp_cases(b, rng):
+    """the Turbomole $ecp section: token lines of the writer model = real writer; reader model = _parse_ecp_lines on written and malformed sections"""
+    from basis_set_exchange import writers
+    from basis_set_exchange.readers import helpers
+    ecp_els = [(z, el) for z, el in b['elements'].items() if 'ecp_potentials' in el]
+    if not ecp_els or any(len(p['coefficients']) != 1 for _, el in ecp_els for p in el['ecp_potentials']):
+        return []
+    try:
+        text = writers.write_formatted_basis_str(b, 'turbomole')
+    except Exception:
+        return []
+    lines = helpers.prune_lines(text.splitlines(), '#')
+    idx = [i for i, l in enumerate(lines) if l.lower() == '$ecp']
+    if len(idx) != 1:
+        return [('g94-harness-error', None, 'turbomole: %d $ecp sections for %d ECP elements' % (len(idx), len(ecp_els)))]
+    sec = lines[idx[0]:]
+    sec = sec[:next((i for i, l in enumerate(sec) if i > 0 and l.startswith('$')), len(sec))]
+    pruned = helpers.prune_lines(sec, '$')
+    conv = lambda x: x.strip().replace('e', 'D').replace('E', 'D')
+    els = [dict(z=int(z), nelec=str(el['ecp_electrons']),
+                pots=[dict(am=p['angular_momentum'][0], terms=[[str(r), conv(g), conv(c)] for r, g, c in zip(p['r_exponents'], p['gaussian_exponents'], p['coefficients'][0])])
+                      for p in el['ecp_potentials']]) for z, el in ecp_els]
+    cases = [('tmecp-write', dict(op='tm_ecp_write', name=b['name'] + '-ecp', els=els), [tmp_tok(l) for l in pruned]),
+             ('tmecp-read', dict(op='tm_ecp_read', lines=[tmp_tok(l) for l in pruned]), tmp_real_read(sec))]
+    for kind, m in tmp_mutations(sec, rng):
+        mp = helpers.prune_lines(m, '$')
+        cases.append(('tmecp-read:' + kind, dict(op='tm_ecp_read', lines=[tmp_tok(l) for l in mp]), tmp_real_read(m)))
+    return cases
+
+
 def run(ctx):
     bse = import_bse()
     R = Result('C03')
@@ -717,7 +843,7 @@ def run(ctx):
             if 'drv_error' in a:
                 raise DriverError(a['drv_error'])
             R.ev()
-            if what in ('write', 'ecp-write', 'g94-write', 'g94ecp-write', 'tm-write'):
+            if what in ('write', 'ecp-write', 'g94-write', 'g94ecp-write', 'tm-write', 'tmecp-write'):
                 R.count('nwchem-model:' + what)
                 if a['lines'] != exp:
                     k = next((i for i, (x, y) in enumerate(zip(a['lines'], exp)) if x != y), min(len(a['lines']), len(exp)))
@@ -731,6 +857,10 @@ def run(ctx):
                     continue
                 if what.startswith('ecp') and got[0] == 'ok':
                     got = ('ok', [[z, n, [dict(p, rexp=[int(x) for x in p['rexp']]) for p in ps]] for z, n, ps in got[1]])
+                if what.startswith('tmecp') and got[0] == 'ok':
+                    rd = lambda x: x.replace('D', 'E').replace('d', 'e')
+                    got = ('ok', [[z, n, [dict(am=p['am'], rexp=[int(x) for x in p['rexp']], gexp=[rd(x) for x in p['gexp']], coef=[rd(x) for x in p['coef']]) for p in ps]]
+                                  for z, n, ps in got[1]])
                 if what.startswith('tm-') and got[0] == 'ok':
                     rd = lambda x: x.replace('D', 'E').replace('d', 'e')
                     got = ('ok', [[z, [dict(ftype=sh['ftype'], am=sh['am'], exps=[rd(x) for x in sh['exps']], coefs=[[rd(x) for x in c] for c in sh['coefs']]) for sh in shs]] for z, shs in got[1]])
